@@ -72,7 +72,8 @@ def main():
     sh('git -C /repo worktree prune')
     sh('rm -rf %s' % snap)
     missed = [s for s, r in matrix.items() if 'neutralised' not in r and not any(isinstance(x, dict) and x.get('exit') == 1 for x in r.values())]
-    print('TOTAL %d changes, %d detected, missed: %s' % (len(matrix), len(matrix) - len(missed), missed))
+    neut = [s for s, r in matrix.items() if 'neutralised' in r]
+    print('TOTAL %d changes, %d detected, %d neutralised by later fixes %s, missed: %s' % (len(matrix), len(matrix) - len(missed) - len(neut), len(neut), sorted(neut), missed))
 
 
 if __name__ == '__main__':
